@@ -490,8 +490,62 @@ def coord_unit():
                 hooks={'isinstance': lambda typ: None, 'init': init_hook, 'fuel': fuel})
 
 
+# ----------------------------------------------------------------------------------------------------------
+# geostructures/structures.py :: contains_coordinate of GeoCircle, GeoEllipse, GeoRing — the analytic membership   (C03)
+#
+# generic over the numeric class `Num α` of Model/Sphere.lean (real numbers in the proofs, binary64 in the driver);
+# `haversine_distance_meters`, `bearing_degrees`, `_radius_at_angle`, `math.radians` are the model's functions (the
+# calculator is C07's subject); the receiver is given by its fields; a hole is its membership test.
+
+def curved_unit():
+    src = py2lean.Source(_repo('structures.py'))
+    insts = [
+        Inst('GeoCircle.contains_coordinate', 'containsCircle', [('self', 'Circle'), ('coord', 'C')], 'Bool'),
+        Inst('GeoEllipse.contains_coordinate', 'containsEllipse', [('self', 'Ellipse'), ('coord', 'C')], 'Bool'),
+        Inst('GeoRing.contains_coordinate', 'containsRing', [('self', 'Ring'), ('coord', 'C')], 'Bool'),
+    ]
+    for t in ('Circle', 'Ellipse', 'Ring'):
+        py2lean.LEAN_TYPE.setdefault(t, 'Unit')
+    py2lean.LEAN_TYPE.setdefault('N', 'α')
+    py2lean.LEAN_TYPE.setdefault('C', 'GV.Sphere.Coord α')
+    py2lean.LEAN_TYPE.setdefault('HoleF', 'GV.Sphere.Coord α → Bool')
+
+    def hav(tr, args):
+        if [a.typ for a in args] != ['C', 'C']:
+            raise Unsupported('haversine_distance_meters(' + ', '.join(a.typ for a in args) + ')')
+        return Val(f'(GV.Sphere.haversine R {args[0].text} {args[1].text})', 'N')
+
+    def brg(tr, args):
+        if [a.typ for a in args] != ['C', 'C']:
+            raise Unsupported('bearing_degrees(' + ', '.join(a.typ for a in args) + ')')
+        return Val(f'(GV.Sphere.bearing rnd5 {args[0].text} {args[1].text})', 'N')
+
+    def radians(tr, args):
+        if [a.typ for a in args] != ['N']:
+            raise Unsupported('math.radians of ' + ', '.join(a.typ for a in args))
+        return Val(f'(GV.Sphere.radians {args[0].text})', 'N')
+
+    attr = {}
+    for cls in ('Circle', 'Ellipse', 'Ring'):
+        attr[(cls, 'center')] = ('center', 'C')
+        attr[(cls, 'holes')] = ('holes', 'List HoleF')
+    attr.update({('Circle', 'radius'): ('radius', 'N'), ('Ellipse', 'rotation'): ('rotDeg', 'N'),
+                 ('Ring', 'inner_radius'): ('inner', 'N'), ('Ring', 'outer_radius'): ('outer', 'N'),
+                 ('Ring', 'angle_min'): ('amin', 'N'), ('Ring', 'angle_max'): ('amax', 'N')})
+    abstract = {('HoleF', '__contains__', ('C',)): ('{0} {1}', 'Bool'),
+                ('Ellipse', '_radius_at_angle', ('N',)): ('GV.Sphere.radiusAtAngle a b {1}', 'N')}
+    return Unit('SrcCurved', src, 'GV.Src.Curved', ['GeoVerif.Model.Sphere'], insts, {},
+                header='open GV Num\nvariable {α : Type} [Num α]', attr_types=attr, abstract=abstract,
+                intrinsics={'haversine_distance_meters': hav, 'bearing_degrees': brg, 'math.radians': radians},
+                hooks={'isinstance': lambda typ: None},
+                ctx_params=[('rnd5', 'α → α'), ('R', 'α'), ('center', 'GV.Sphere.Coord α'), ('radius', 'α'), ('a', 'α'), ('b', 'α'),
+                            ('rotDeg', 'α'), ('inner', 'α'), ('outer', 'α'), ('amin', 'α'), ('amax', 'α'),
+                            ('holes', 'List (GV.Sphere.Coord α → Bool)')])
+
+
 UNITS = {'SrcTime': time_unit, 'SrcBase': base_unit, 'SrcMulti': multi_unit, 'SrcColl': coll_unit, 'SrcPip': pip_unit,
-         'SrcMember': member_unit, 'SrcTrack': track_unit, 'SrcRelate': relate_unit, 'SrcCoord': coord_unit}
+         'SrcMember': member_unit, 'SrcTrack': track_unit, 'SrcRelate': relate_unit, 'SrcCoord': coord_unit,
+         'SrcCurved': curved_unit}
 
 
 def render(name):
